@@ -64,6 +64,19 @@ class C15(Prop):
             rng.shuffle(qs)
             yield dict(entry="Elicitor", family="sequence", rule="SEQ", V=V, qs=qs, memoize=bool(i % 3), ezi=bool(i % 4 < 2), integer=integer,
                        cls=["lambda", "profile"][i % 5 == 0], multiple=bool(i % 6 == 0))
+        for c in self.long_sequences(rng, tier):
+            yield c
+
+    def long_sequences(self, rng, tier):
+        # long sessions on one elicitor: well over a thousand distinct questions, then early questions asked again
+        for i in range(3 if tier == "quick" else 30):
+            n = rng.randint(30, 45); m = rng.randint(35, 50)
+            V = [[float(rng.randint(0, 9)) for _ in range(m)] for _ in range(n)]
+            allq = [(a, b) for a in range(n) for b in range(m)]; rng.shuffle(allq)
+            qs = allq[:rng.randint(1100, 1500)]
+            qs = qs + qs[:40] + [rng.choice(qs) for _ in range(40)]
+            yield dict(entry="Elicitor", family="long_sequence", rule="SEQ", V=V, qs=qs, memoize=True, ezi=bool(i % 2), integer=bool(i % 2),
+                       cls=["lambda", "profile"][i % 3 == 0], multiple=False)
 
     def run_seq(self, case):
         from socialchoicekit.elicitation_utils import LambdaElicitor, IntegerLambdaElicitor, ValuationProfileElicitor, IntegerValuationProfileElicitor
